@@ -688,9 +688,11 @@ func runC13(w *World, c *Check) {
 		}
 		fa := NewFuncAn(w, fn)
 		got := map[string]string{}
-		for _, st := range fa.storesTo(`.*\.(Tag|Class|IsCompound)`) {
-			a := fa.R.R(st.Addr)
-			got[a[strings.LastIndex(a, ".")+1:]] = fa.R.R(st.Val)
+		for _, sub := range fa.withNewHelpers() {
+			for _, st := range sub.storesTo(`.*\.(Tag|Class|IsCompound)`) {
+				a := sub.R.R(st.Addr)
+				got[a[strings.LastIndex(a, ".")+1:]] = sub.R.R(st.Val)
+			}
 		}
 		c.Decide(got["Tag"] == tag && got["Class"] == "2" && got["IsCompound"] == "true", "C13.framing", fk, "choice-tag", w.Pos(fn.Pos()), "the CHOICE alternative is context-specific constructed tag ["+tag+"] (RFC 4178 §4.2)", fmt.Sprintf("RawValue fields %v", got))
 	}
